@@ -127,7 +127,9 @@ class Repo:
                 self.modules[modname] = mi
         self.digest = h.hexdigest()[:16]
         trees = [mi.tree for mi in self.modules.values()]
-        if inline_new_helpers(trees):
+        for _round in range(3):
+            if not inline_new_helpers(trees):
+                break
             for mi in self.modules.values():
                 mi.tree = normalize(mi.tree)
             trees = [mi.tree for mi in self.modules.values()]
